@@ -173,7 +173,10 @@ Lemma ck_run_app c nm k a b : ck_run c nm k (a ++ b) = ck_run c nm (ck_run c nm 
 Proof. unfold ck_run. apply fold_left_app. Qed.
 
 Definition is_marker (it : titem) : bool :=
-  match it with TExited _ _ _ | TEntered _ _ _ | TFired _ _ _ | TUser _ _ _ => true | _ => false end.
+  match it with
+  | TExited _ _ _ | TEntered _ _ _ | TFired _ _ _ | TUser _ _ _ | TSetTimeout _ _ _ => true
+  | _ => false
+  end.
 Lemma ck_run_skip c nm : forall l k, forallb (fun it => negb (is_marker it)) l = true -> ck_run c nm k l = k.
 Proof.
   induction l as [|it r IH]; intros k H; simpl in *; [reflexivity|].
@@ -186,7 +189,8 @@ Proof. intros H. induction l; simpl; [reflexivity|]. now rewrite H, IHl. Qed.
 (* ----------------------------------------------------------------- the simulation relation *)
 Definition R (strict : bool) (w : world) (k : ck) : Prop :=
   ck_ok k = true /\ ck_last k <= w_clock w /\ Inv strict w /\
-  forall m, ck_open k m = Some (w_st w m, armed w m).
+  (forall m, ck_open k m = Some (w_st w m, armed w m)) /\
+  (forall s, ck_tout k s = w_tout w s).
 
 Lemma R_weaken w k : R true w k -> R false w k.
 Proof.
@@ -207,21 +211,24 @@ Lemma ck_change : forall c nm k m s d t a,
   match a with Some dl => t <= dl | None => True end ->
   let k' := ck_run c nm k [TExited m s t; TEntered m d t] in
   ck_ok k' = true /\ ck_last k' = t /\
-  forall m', ck_open k' m' = if Nat.eqb m' m then Some (d, period c d t) else ck_open k m'.
+  (forall m', ck_open k' m' = if Nat.eqb m' m then Some (d, period (ck_tout k) d t) else ck_open k m') /\
+  ck_tout k' = ck_tout k.
 Proof.
   intros c nm k m s d t a Hok Hl Ho Ha k'. unfold k'. simpl.
   rewrite upd_same, Hok, Ho, Nat.eqb_refl. simpl.
   assert (T : match a with Some dl => t <=? dl | None => true end = true).
   { destruct a; [apply Nat.leb_le; exact Ha|reflexivity]. }
   rewrite T. assert (L : ck_last k <=? t = true) by (apply Nat.leb_le; exact Hl). rewrite L, Nat.leb_refl.
-  repeat split. intros m'. unfold upd. destruct (Nat.eqb m' m); reflexivity.
+  split; [reflexivity|split; [reflexivity|split; [|reflexivity]]].
+  intros m'. unfold upd. destruct (Nat.eqb m' m); reflexivity.
 Qed.
 
 Lemma cancel_slot_fields : forall w s m,
   w_clock (cancel_slot w s m) = w_clock w /\ w_st (cancel_slot w s m) = w_st w /\
-  w_runner (cancel_slot w s m) = w_runner w /\ length (w_timers (cancel_slot w s m)) = length (w_timers w).
+  w_runner (cancel_slot w s m) = w_runner w /\ length (w_timers (cancel_slot w s m)) = length (w_timers w) /\
+  w_tout (cancel_slot w s m) = w_tout w.
 Proof.
-  intros w s m. unfold cancel_slot. destruct (w_runner w s m); simpl; auto using length_upd_nth.
+  intros w s m. unfold cancel_slot. destruct (w_runner w s m); simpl; repeat split; auto using length_upd_nth.
 Qed.
 
 Section Change.
@@ -232,14 +239,14 @@ Section Change.
     R b w k -> set_and_start c (cancel_slot w (w_st w m) m) m d = (mk, w') ->
     R b w' (ck_run c nm k mk) /\ nonew w w' /\
     (forall m', w_st w' m' = if Nat.eqb m' m then d else w_st w m') /\
-    armed w' m = period c d (w_clock w) /\
+    armed w' m = period (w_tout w) d (w_clock w) /\
     (forall m', m' <> m -> armed w' m' = armed w m') /\
     (forall j tm, pend w' j tm -> tm_model tm = m -> j = length (w_timers w)).
   Proof.
-    intros b w k m d mk w' (Hok & Hlast & I & Hopen) E.
+    intros b w k m d mk w' (Hok & Hlast & I & Hopen & Htout) E.
     set (s := w_st w m) in *.
     set (w1 := cancel_slot w s m) in *.
-    destruct (cancel_slot_fields w s m) as (C1 & S1 & Rn1 & L1). fold w1 in C1, S1, Rn1, L1.
+    destruct (cancel_slot_fields w s m) as (C1 & S1 & Rn1 & L1 & T1). fold w1 in C1, S1, Rn1, L1, T1.
     assert (I1 : Inv b w1).
     { unfold w1, cancel_slot. destruct (w_runner w s m) as [i|]; [apply upd_inv; auto using kf_cancel, nr_cancel|exact I]. }
     assert (P1 : forall j tm, pend w1 j tm -> pend w j tm).
@@ -255,15 +262,14 @@ Section Change.
       apply upd_armed_other. intros Hr'. destruct (slot_model _ _ _ _ _ _ _ I Hr Hr'). congruence. }
     assert (Ta : match armed w m with Some dl => w_clock w <= dl | None => True end).
     { destruct (armed w m) as [dl|] eqn:Ha; [|exact Logic.I]. eapply armed_time; eauto. }
-    unfold set_and_start in E. rewrite C1, S1, Rn1 in E. fold s in E.
-    pose proof (ck_change c nm k m s d (w_clock w) (armed w m) Hok Hlast (Hopen m) Ta) as (K1 & K2 & K3).
-    unfold timeout_of in *.
-    destruct (Nat.ltb 0 (ts_timeout (sdef c d))) eqn:Ht.
+    unfold set_and_start in E. rewrite C1, S1, Rn1, T1 in E. fold s in E.
+    pose proof (ck_change c nm k m s d (w_clock w) (armed w m) Hok Hlast (Hopen m) Ta) as (K1 & K2 & K3 & K4).
+    destruct (Nat.ltb 0 (w_tout w d)) eqn:Ht.
     - (* a timer is started *)
       inversion E; subst mk w'; clear E.
       set (l1 := w_timers w1) in *.
-      set (new := mkTimer d m (w_clock w + ts_timeout (sdef c d)) Pending).
-      set (W := mkW (w_clock w) (upd (w_st w) m d) (l1 ++ [new]) (upd2 (w_runner w) d m (Some (length l1)))).
+      set (new := mkTimer d m (w_clock w + w_tout w d) Pending).
+      set (W := mkW (w_clock w) (upd (w_st w) m d) (l1 ++ [new]) (upd2 (w_runner w) d m (Some (length l1))) (w_tout w)).
       apply Nat.ltb_lt in Ht.
       assert (Pn : forall j tm, pend W j tm -> (j < length l1 /\ pend w1 j tm) \/ (j = length l1 /\ tm = new)).
       { intros j tm [Hn Hp]. simpl in Hn. destruct (Nat.lt_ge_cases j (length l1)) as [Hlt|Hge].
@@ -287,7 +293,7 @@ Section Change.
         - intros j tm P. destruct (Pn _ _ P) as [[Hlt P']|[Hj Htm]].
           + pose proof (inv_time _ _ I1 _ _ P') as T. unfold not_overdue in *. rewrite C1 in T. exact T.
           + subst. unfold not_overdue; simpl. destruct b; lia. }
-      assert (Am : armed W m = Some (w_clock w + ts_timeout (sdef c d))).
+      assert (Am : armed W m = Some (w_clock w + w_tout w d)).
       { unfold armed; simpl. rewrite upd_same, upd2_same, nth_error_app2, Nat.sub_diag by lia. reflexivity. }
       assert (Ao : forall m', m' <> m -> armed W m' = armed w m').
       { intros m' Hne. rewrite <- (A1 _ Hne). unfold armed; simpl. rewrite upd_other by auto.
@@ -296,20 +302,21 @@ Section Change.
         rewrite <- Rn1 in Hr. destruct (inv_slot _ _ I1 _ _ _ Hr) as (tm & Hn & _). rewrite nth_error_app1; [reflexivity|].
         apply nth_error_Some. fold l1 in Hn. congruence. }
       split; [|split; [|split; [|split; [|split]]]].
-      + split; [exact K1|split; [rewrite K2; simpl; lia|split; [exact Inew|]]].
-        intros m'. rewrite K3. simpl. destruct (Nat.eqb_spec m' m) as [->|Hne].
-        * rewrite upd_same, Am. unfold period, timeout_of. apply Nat.ltb_lt in Ht. now rewrite Ht.
-        * rewrite upd_other by auto. rewrite Ao by auto. rewrite Hopen. reflexivity.
+      + split; [exact K1|split; [rewrite K2; simpl; lia|split; [exact Inew|split]]].
+        * intros m'. rewrite K3. simpl. destruct (Nat.eqb_spec m' m) as [->|Hne].
+          -- rewrite upd_same, Am. unfold period. rewrite Htout. apply Nat.ltb_lt in Ht. now rewrite Ht.
+          -- rewrite upd_other by auto. rewrite Ao by auto. rewrite Hopen. reflexivity.
+        * intros s'. rewrite K4. simpl. apply Htout.
       + split; [reflexivity|]. intros j tm P. destruct (Pn _ _ P) as [[_ P']|[_ ->]].
         * left. apply P1, P'.
         * right. simpl. lia.
       + intros m'. simpl. unfold upd. reflexivity.
-      + rewrite Am. unfold period, timeout_of. apply Nat.ltb_lt in Ht. now rewrite Ht.
+      + rewrite Am. unfold period. apply Nat.ltb_lt in Ht. now rewrite Ht.
       + exact Ao.
       + intros j tm P Hm. destruct (Pn _ _ P) as [[_ P']|[-> _]]; [|exact L1]. exfalso. exact (E1 _ _ P' Hm).
     - (* no timeout *)
       inversion E; subst mk w'; clear E.
-      set (W := mkW (w_clock w) (upd (w_st w) m d) (w_timers w1) (w_runner w)).
+      set (W := mkW (w_clock w) (upd (w_st w) m d) (w_timers w1) (w_runner w) (w_tout w)).
       assert (Pn : forall j tm, pend W j tm -> pend w1 j tm) by (intros j tm P; exact P).
       assert (Inew : Inv b W).
       { constructor; simpl.
@@ -327,13 +334,14 @@ Section Change.
       assert (Ao : forall m', m' <> m -> armed W m' = armed w m').
       { intros m' Hne. rewrite <- (A1 _ Hne). unfold armed; simpl. rewrite upd_other by auto. rewrite S1, Rn1. reflexivity. }
       split; [|split; [|split; [|split; [|split]]]].
-      + split; [exact K1|split; [rewrite K2; simpl; lia|split; [exact Inew|]]].
-        intros m'. rewrite K3. simpl. destruct (Nat.eqb_spec m' m) as [->|Hne].
-        * rewrite upd_same, Am. unfold period, timeout_of. now rewrite Ht.
-        * rewrite upd_other by auto. rewrite Ao by auto. rewrite Hopen. reflexivity.
+      + split; [exact K1|split; [rewrite K2; simpl; lia|split; [exact Inew|split]]].
+        * intros m'. rewrite K3. simpl. destruct (Nat.eqb_spec m' m) as [->|Hne].
+          -- rewrite upd_same, Am. unfold period. rewrite Htout. now rewrite Ht.
+          -- rewrite upd_other by auto. rewrite Ao by auto. rewrite Hopen. reflexivity.
+        * intros s'. rewrite K4. simpl. apply Htout.
       + split; [reflexivity|]. intros j tm P. left. apply P1, P.
       + intros m'. simpl. unfold upd. reflexivity.
-      + rewrite Am. unfold period, timeout_of. now rewrite Ht.
+      + rewrite Am. unfold period. now rewrite Ht.
       + exact Ao.
       + intros j tm P Hm. exfalso. exact (E1 _ _ P Hm).
   Qed.
@@ -353,7 +361,7 @@ Qed.
 
 Lemma none_overdue_R : forall nm w k, R true w k -> none_overdue nm k (w_clock w) = true.
 Proof.
-  intros nm w k (_ & _ & I & Ho). unfold none_overdue. apply forallb_forall. intros m _.
+  intros nm w k (_ & _ & I & Ho & _). unfold none_overdue. apply forallb_forall. intros m _.
   rewrite Ho. destruct (armed w m) as [dl|] eqn:Ha; [|reflexivity].
   destruct (armed_pend _ _ _ _ I Ha) as (i & tm & P & _ & _ & Hd & _).
   pose proof (inv_time _ _ I _ _ P) as T. unfold not_overdue in T. apply Nat.ltb_lt. lia.
@@ -680,7 +688,7 @@ Section Run.
     set (w1 := set_timers w (upd_nth (w_timers w) i start_running)) in *.
     destruct (handler c w1 (tm_model tm) (ts_on_timeout (sdef c (tm_state tm)))) as [its0 w2] eqn:Eh.
     inversion E; subst its w'; clear E.
-    destruct HR as (Hok & Hlast & I & Hopen).
+    destruct HR as (Hok & Hlast & I & Hopen & Htout).
     unfold due in Hd. apply andb_true_iff in Hd as [Hp Hdl]. apply Nat.eqb_eq in Hdl.
     assert (P : pend w i tm) by (split; assumption).
     destruct (inv_pend _ _ I _ _ P) as [Hs Hr].
@@ -691,7 +699,7 @@ Section Run.
       destruct Pj as [Hn1 Hp1]. unfold w1 in Hn1; simpl in Hn1.
       rewrite nth_error_upd_nth_same, Hn in Hn1. simpl in Hn1. inversion Hn1; subst t. discriminate. }
     assert (R1 : R false w1 (ck_step c nm k (TFired (tm_model tm) (tm_state tm) (w_clock w)))).
-    { split; [|split; [|split]].
+    { split; [|split; [|split; [|split]]]; [| | | |intros s'; simpl; apply Htout].
       - simpl. rewrite Hok, Hopen, Hs, Ha, !Nat.eqb_refl.
         replace (ck_last k <=? w_clock w) with true by (symmetry; apply Nat.leb_le; lia). reflexivity.
       - simpl. lia.
@@ -701,9 +709,9 @@ Section Run.
           rewrite nth_error_upd_nth_same, Hn. reflexivity.
         + rewrite Hopen. f_equal. f_equal. symmetry. apply upd_armed_other.
           intros Hr'. rewrite <- Hs in Hr. destruct (slot_model _ _ _ _ _ _ _ I Hr Hr'). congruence. }
-    destruct (handler_R _ _ _ _ _ _ _ R1 Eh) as ((Hok2 & Hlast2 & I2 & Hopen2) & (C2 & N2)).
+    destruct (handler_R _ _ _ _ _ _ _ R1 Eh) as ((Hok2 & Hlast2 & I2 & Hopen2 & Htout2) & (C2 & N2)).
     split; [|split].
-    - simpl. split; [exact Hok2|split; [simpl; exact Hlast2|split]].
+    - simpl. split; [exact Hok2|split; [simpl; exact Hlast2|split; [|split; [|intros s'; simpl; apply Htout2]]]].
       + apply upd_inv; auto using kf_finish, nr_finish.
       + intros m'. rewrite Hopen2. simpl. f_equal. f_equal. symmetry. apply upd_armed_same.
         intros t. split; [apply finish_pending|]. destruct t as [a b0 d0 st]; unfold finish; destruct st; reflexivity.
@@ -755,7 +763,7 @@ Section Run.
     R true w k -> tick c w = (its, w') -> R true w' (ckr k its) /\ w_clock w' = S (w_clock w).
   Proof.
     intros w k its w' (A & B & I & D) E. unfold tick in E.
-    set (w1 := mkW (S (w_clock w)) (w_st w) (w_timers w) (w_runner w)) in *.
+    set (w1 := mkW (S (w_clock w)) (w_st w) (w_timers w) (w_runner w) (w_tout w)) in *.
     assert (R1 : R false w1 k).
     { split; [exact A|split; [simpl; lia|split; [|exact D]]].
       destruct I as [I1 I2 I3]. constructor.
@@ -781,7 +789,7 @@ Section Run.
   Lemma do_op_R : forall w k o,
     R true w k -> R true (snd (do_op c w o)) (ckr k (fst (fst (do_op c w o)))).
   Proof.
-    intros w k o HR. destruct o as [m e|dt]; simpl.
+    intros w k o HR. destruct o as [m e|dt|s v]; simpl.
     - destruct (top_trig c w m e) as [[its w'] r] eqn:Es. simpl.
       assert (R0 : R true w (ck_step c nm k (TUser m e (w_clock w)))).
       { pose proof (none_overdue_R nm _ _ HR) as N. destruct HR as (A & B & I & D).
@@ -790,6 +798,12 @@ Section Run.
       exact (proj1 (top_trig_R _ _ _ _ _ _ _ _ R0 Es)).
     - destruct (advance c w dt) as [its w'] eqn:Ea. simpl.
       exact (proj1 (advance_R _ _ _ _ _ HR Ea)).
+    - destruct HR as (A & B & I & D & T). split; [|split; [|split; [|split]]].
+      + simpl. rewrite A. replace (ck_last k <=? w_clock w) with true by (symmetry; apply Nat.leb_le; lia). reflexivity.
+      + simpl. lia.
+      + destruct I as [I1 I2 I3]. constructor; assumption.
+      + intros m. simpl. exact (D m).
+      + intros s'. simpl. unfold upd. destruct (Nat.eqb s' s); [reflexivity|apply T].
   Qed.
 
   Lemma run_R : forall h w k, R true w k -> R true (run_world c w h) (ckr k (run_trace c w h)).
@@ -799,9 +813,9 @@ Section Run.
   Qed.
 End Run.
 
-Lemma R_init s0 : R true (init_world s0) (ck_init s0).
+Lemma R_init c s0 : R true (init_world c s0) (ck_init c s0).
 Proof.
-  split; [reflexivity|split; [simpl; lia|split]].
+  split; [reflexivity|split; [simpl; lia|split; [|split; [|intros s; reflexivity]]]].
   - constructor.
     + intros s m i H. discriminate.
     + intros i tm [H _]. destruct i; discriminate.
@@ -811,28 +825,28 @@ Qed.
 
 (* the property, for every configuration, number of models and history *)
 Lemma timed_spec : forall c nm s0 h, guard_C17 c = true ->
-  spec_C17 c nm s0 (run_trace c (init_world s0) h) (w_clock (run_world c (init_world s0) h)) = true.
+  spec_C17 c nm s0 (run_trace c (init_world c s0) h) (w_clock (run_world c (init_world c s0) h)) = true.
 Proof.
-  intros c nm s0 h G. pose proof (run_R c nm G h _ _ (R_init s0)) as HR. unfold spec_C17, ck_end.
-  pose proof (none_overdue_R nm _ _ HR) as N. destruct HR as (A & B & _ & _).
+  intros c nm s0 h G. pose proof (run_R c nm G h _ _ (R_init c s0)) as HR. unfold spec_C17, ck_end.
+  pose proof (none_overdue_R nm _ _ HR) as N. destruct HR as (A & B & _).
   rewrite A, N. replace (_ <=? _) with true by (symmetry; apply Nat.leb_le; exact B). reflexivity.
 Qed.
 
-Lemma inv_reachable : forall c s0 h, guard_C17 c = true -> Inv true (run_world c (init_world s0) h).
-Proof. intros c s0 h G. exact (proj1 (proj2 (proj2 (run_R c 0 G h _ _ (R_init s0))))). Qed.
+Lemma inv_reachable : forall c s0 h, guard_C17 c = true -> Inv true (run_world c (init_world c s0) h).
+Proof. intros c s0 h G. exact (proj1 (proj2 (proj2 (run_R c 0 G h _ _ (R_init c s0))))). Qed.
 
 
 (* ----------------------------------------------------------------- local readings: one state change *)
-Lemma R_of_inv : forall b w, Inv b w -> R b w (mkCk true 0 (fun m => Some (w_st w m, armed w m))).
-Proof. intros b w I. split; [reflexivity|split; [simpl; lia|split; [exact I|intros m; reflexivity]]]. Qed.
+Lemma R_of_inv : forall b w, Inv b w -> R b w (mkCk true 0 (fun m => Some (w_st w m, armed w m)) (w_tout w)).
+Proof. intros b w I. split; [reflexivity|split; [simpl; lia|split; [exact I|split; intros; reflexivity]]]. Qed.
 
 Lemma switch_local : forall b c w m d, Inv b w ->
   let w' := snd (switch c w m d) in
   Inv b w' /\
-  armed w' m = period c d (w_clock w) /\
+  armed w' m = period (w_tout w) d (w_clock w) /\
   (forall m', m' <> m -> armed w' m' = armed w m' /\ w_st w' m' = w_st w m') /\
   (forall j tm, pend w' j tm -> tm_model tm = m ->
-     j = length (w_timers w) /\ tm_state tm = d /\ tm_deadline tm = w_clock w + timeout_of c d).
+     j = length (w_timers w) /\ tm_state tm = d /\ tm_deadline tm = w_clock w + w_tout w d).
 Proof.
   intros b c w m d I w'. unfold w', switch.
   destruct (set_and_start c (cancel_slot w (w_st w m) m) m d) as [mk w1] eqn:E. simpl.
@@ -842,11 +856,11 @@ Proof.
   - intros j tm P Hm. split; [exact (Pn _ _ P Hm)|].
     destruct (inv_pend _ _ I1 _ _ P) as [Hs _]. rewrite Hm, St, Nat.eqb_refl in Hs.
     pose proof (pend_armed _ _ _ _ I1 P) as Ha. rewrite Hm, Am in Ha. unfold period in Ha.
-    destruct (0 <? timeout_of c d); [|discriminate]. inversion Ha. auto.
+    destruct (0 <? w_tout w d); [|discriminate]. inversion Ha. auto.
 Qed.
 
 Lemma restart_local : forall b c w m d, Inv b w ->
-  armed (snd (switch c w m d)) m = period c d (w_clock w).
+  armed (snd (switch c w m d)) m = period (w_tout w) d (w_clock w).
 Proof. intros b c w m d I. exact (proj1 (proj2 (switch_local b c w m d I))). Qed.
 
 Lemma internal_local : forall rec c w q m e t,
@@ -859,7 +873,7 @@ Qed.
 
 Lemma never_if_left_local : forall b c w m d, Inv b w ->
   forall j tm, pend (snd (switch c w m d)) j tm -> tm_model tm = m ->
-    j = length (w_timers w) /\ tm_state tm = d /\ tm_deadline tm = w_clock w + timeout_of c d.
+    j = length (w_timers w) /\ tm_state tm = d /\ tm_deadline tm = w_clock w + w_tout w d.
 Proof. intros b c w m d I. exact (proj2 (proj2 (proj2 (switch_local b c w m d I)))). Qed.
 
 Lemma per_model_local : forall b c w m d m', Inv b w -> m' <> m ->
